@@ -586,8 +586,15 @@ def native_required_anywhere(w=None):
     t = {"a": "A[{% block b %}Ab{% endblock %}]", "root_req": "A[{% block b required %}{% endblock %}]",
          "leaf_req": "{% extends 'a' %}{% block b required %}{% endblock %}", "mid_req": "{% extends 'a' %}{% block b required %}{% endblock %}",
          "below_mid": "{% extends 'mid_req' %}", "redeclared": "{% extends 'root_req' %}{% block b required %}{% endblock %}", "below_re": "{% extends 'redeclared' %}",
-         "ok_over_mid": "{% extends 'mid_req' %}{% block b %}X{% endblock %}", "ok_over_re": "{% extends 'redeclared' %}{% block b %}Y{% endblock %}"}
-    cases = [("leaf_req", {}, "TemplateRuntimeError"), ("below_mid", {}, "TemplateRuntimeError"), ("below_re", {}, "TemplateRuntimeError"),
+         "ok_over_mid": "{% extends 'mid_req' %}{% block b %}X{% endblock %}", "ok_over_re": "{% extends 'redeclared' %}{% block b %}Y{% endblock %}",
+         # an override may reach the required block through super() / super.super(): the block IS overridden, nothing fails (75c7dc0)
+         "root_ws": "A[{% block b required %} {% endblock %}]", "super_into_req": "{% extends 'root_ws' %}{% block b %}X{{ super() }}Y{% endblock %}",
+         "super_mid": "{% extends 'mid_req' %}{% block b %}<{{ super() }}|{{ super.super() }}>{% endblock %}",
+         "super_re": "{% extends 'redeclared' %}{% block b %}<{{ super() }}{{ super.super() }}>{% endblock %}",
+         "self_req": "{% extends 'root_ws' %}{% block b %}X{% endblock %}{% block c %}{% endblock %}", "self_call": "A[{% block b required %}{% endblock %}]{{ self.b() }}",
+         "self_call_child": "{% extends 'self_call' %}{% block b %}Z{% endblock %}"}
+    cases = [("super_into_req", {}, "A[X Y]"), ("super_mid", {}, "A[<|Ab>]"), ("super_re", {}, "A[<>]"), ("self_req", {}, "A[X]"),
+             ("self_call", {}, "TemplateRuntimeError"), ("self_call_child", {}, "A[Z]Z"),("leaf_req", {}, "TemplateRuntimeError"), ("below_mid", {}, "TemplateRuntimeError"), ("below_re", {}, "TemplateRuntimeError"),
              ("root_req", {}, "TemplateRuntimeError"), ("ok_over_mid", {}, "A[X]"), ("ok_over_re", {}, "A[Y]")]
     return _render_family(t, cases, "required blocks")
 
@@ -1753,7 +1760,7 @@ class RequiredBlockTask(Task):
         return native_required_anywhere(w)
 
     def finding_key(self, res):
-        return "required-block-function-renders"
+        return "raises-via-super" if "[raises-via-super]" in (res.detail or "") else "required-block-function-renders"
 
     def run(self, tier, seed):
         try:
@@ -1777,9 +1784,20 @@ class RequiredBlockTask(Task):
                         continue
                     real = [s for s in f.body if not (isinstance(s, ast.Assign) and getattr(s.targets[0], "id", "") in ("resolve", "undefined", "concat", "cond_expr_undefined"))
                             and not (isinstance(s, ast.If) and isinstance(s.test, ast.Constant))]
-                    if not (real and is_raise_runtime_error(real[0], "Required block")):
-                        fails.append(f"the function of required block {b} renders (first statement: {ast.unparse(real[0])[:60] if real else None}); when no descendant "
-                                     f"overrides it and the chain's root does not declare it required, nothing fails")
+                    g = real[0] if real else None
+                    if is_raise_runtime_error(g, "Required block"):
+                        # (regression of f3dda99, repaired by 75c7dc0) an unconditional raise also fires when an OVERRIDE reaches the
+                        # required block through super() / super.super(): then a descendant does override it and nothing may fail
+                        fails.append(f"[raises-via-super] the function of required block {b} raises unconditionally: an override that calls super() into it fails "
+                                     f"although the block is overridden; it must fail exactly when it is the most derived definition (context.blocks[name][0])")
+                        continue
+                    t = g.test if isinstance(g, ast.If) else None
+                    most_derived = (isinstance(t, ast.Compare) and len(t.ops) == 1 and isinstance(t.ops[0], ast.Is) and is_name(t.comparators[0], "block_" + b)
+                                    and block_name_of(ast.Call(func=t.left, args=[], keywords=[])) == b)
+                    if not (most_derived and not g.orelse and len(g.body) == 1 and is_raise_runtime_error(g.body[0], "Required block")):
+                        fails.append(f"the function of required block {b} renders (first statement: {ast.unparse(g)[:70] if g is not None else None}); it must first fail with "
+                                     f"TemplateRuntimeError exactly when it is the most derived definition (`if context.blocks[name][0] is block_<name>: raise`), "
+                                     f"whichever template of the chain declares it")
             res.append(Res(f"{self.name}#p{i}", "refuted" if fails else "discharged", "pyvc-emit", 0, "; ".join(fails[:2]), self.kind,
                            {"shape": list(self.shape)} if fails else None))
         return res
